@@ -80,7 +80,8 @@ impl Req {
         let mut m = match self.kind {
             "none" => format!("GET {path} HTTP/1.1\r\n"),
             "known" => format!("PUT {path} HTTP/1.1\r\ncontent-length: {}\r\n", self.declared),
-            "unknown" => format!("POST {path} HTTP/1.1\r\n"),
+            // (both methods for which a body of undeclared length is assumed)
+            "unknown" => format!("{} {path} HTTP/1.1\r\n", if path.bytes().map(usize::from).sum::<usize>() % 2 == 0 { "POST" } else { "PUT" }),
             _ => format!("GET {path} HTTP/1.1\r\nbad header line\r\n"),
         };
         if self.expect {
